@@ -407,3 +407,23 @@ for how in ("value", "to"):
                   "(pow10(x / 10) if formula == 'pow10(x / 10)' else (exp(x) if formula == 'exp(x)' else ((10 * log10(x)) if formula == '10 * log10(x)' else (1000 * x - 273.15)))))), 1000)",
                   "same-formula-as-without-an-uncertainty")
         c.no_raise()
+
+
+# ---- units named through attributes of a Unit() object: every access is a unit quantity of its own (converting one in place, as
+#      Quantity.to does, changes nothing for the next access) -------------------------------------------------------------------------------
+UNITC = "units/unit.py::Unit"
+
+
+@contract(UNITC + ".__getattr__", ["C05", "C07"], name="Unit.__getattr__")
+def _(c):
+    c.bound = "the listed unit names; one earlier access of the same name that was converted in place"
+    for name, target in [("Cel", "K"), ("dBm", "mW"), ("K", "degF"), ("m", "cm"), ("Np", "dB")]:
+        def pre(b, name=name, target=target):
+            u = b.new(UNITC)
+            first = b.call(b.getattr(u, "__getattr__"), name)
+            b.call(b.getattr(first, "to"), target)
+            return dict(args=[u, name], env=dict(first=first, name=name, u=u))
+        c.scenario(f"{name} after {name}.to({target})", pre)
+    c.ensures("result.magnitude.value == 1 and result.baseunits.expression == name and not same_object(result, first)", "one-of-this-unit-and-an-object-of-its-own")
+    c.no_raise()
+    c.modifies()
